@@ -157,6 +157,7 @@ class RootDataset(KDDataset):
         assert 0 <= idx < self.size, f"index {idx} out of range({self.size})"
         if ctx is not None and self.ctx_tags:
             ctx["root_x"] = (self.ds_id, idx)  # recorded for every sample
+            ctx["last_item"] = "x"
             ctx[f"tag{idx % 3}"] = idx  # key set differs between samples: a leaked context shows up as extra keys
         k = 0 if self.kind == "dup" else idx + 31 * self.ds_id
         if self.kind == "pil":
@@ -165,14 +166,20 @@ class RootDataset(KDDataset):
             return Image.fromarray(a)
         return ((torch.arange(3 * 16 * 16).float().view(3, 16, 16) * (k + 2)) % 23) / 23
 
+    def _item(self, name, idx, ctx):
+        out = self.getitem_x(idx, ctx)
+        if ctx is not None and self.ctx_tags:
+            ctx["last_item"] = name  # the same key is written by several loaders with different values
+        return out
+
     def getitem_y(self, idx, ctx=None):
-        return self.getitem_x(idx, ctx)
+        return self._item("y", idx, ctx)
 
     def getitem_source(self, idx, ctx=None):
-        return self.getitem_x(idx, ctx)
+        return self._item("source", idx, ctx)
 
     def getitem_target(self, idx, ctx=None):
-        return self.getitem_x(idx, ctx)
+        return self._item("target", idx, ctx)
 
     def getitem_semseg(self, idx, ctx=None):
         return (torch.arange(16 * 16).view(16, 16) + int(idx)) % 5
@@ -224,3 +231,33 @@ class OffsetKDTransform(_KDTransform):
         if OffsetKDTransform.on_call[0] is not None:
             OffsetKDTransform.on_call[0]()
         return ("KD", self.offset, x)
+
+
+from kappadata.datasets.kd_wrapper import KDWrapper as _KDWrapper
+
+
+class CountingFusedWrapper(_KDWrapper):
+    """a wrapper that declares x and class as jointly loaded; every load (joint or single) gets a running number, so a
+    delivered sample shows whether its fused members came from ONE joint load"""
+
+    def __init__(self, dataset):
+        super().__init__(dataset=dataset)
+        self.loads = 0
+
+    @property
+    def fused_operations(self):
+        return super().fused_operations + [["x", "class"]]
+
+    def _next(self):
+        self.loads += 1
+        return self.loads
+
+    def getitem_x(self, idx, ctx=None):
+        return ("x", int(idx), self._next())
+
+    def getitem_class(self, idx, ctx=None):
+        return ("class", int(idx), self._next())
+
+    def getitem_xclass(self, idx, ctx=None):
+        n = self._next()
+        return ("x", int(idx), n), ("class", int(idx), n)
